@@ -291,6 +291,22 @@ def run(ctx):
     if acc:
         ctx.report("C02-frames-dropped", "accumulates", "the trampoline accumulates per iteration via %s" % acc, where_of(ap))
 
+    # ------------------------------------------------------------------ C02-heap-cycle
+    ctx.rule("C02-heap-cycle", "live heap: a frame must not be kept alive by a procedure it binds (reference-counted environments: a "
+                               "frame that binds a procedure closed over that frame is never freed, so every call of a procedure with an "
+                               "internal procedure definition leaves its frame behind); bundled library procedures of that kind, and the "
+                               "derived forms that expand into calls of them, leak on every use")
+    d_cyc, cyc_names = evaltables.rule_frame_cycles(ctx, "C02-heap-cycle")
+    if cyc_names:
+        ctx.oblige(False)
+        ctx.report("C02-heap-cycle", "internal-procedure-definition", "after a procedure with an internal procedure definition has returned, "
+                   "its frame still binds %s to a procedure whose environment is that frame, and environments are reference-counted with no "
+                   "weak edge: the pair is never freed. A loop whose body has an internal procedure definition grows the live heap with "
+                   "the iteration count: (define (f n) (define (g) 1) (if (= n 0) 0 (f (- n 1)))) (f 100000)" % (cyc_names,), where_of(ap))
+        _library_heap_cycles(ctx)
+    elif d_cyc:
+        ctx.oblige(True)
+
     # ------------------------------------------------------------------ C02-iteration-is-application
     ctx.rule("C02-iteration-is-application", "a turn of the trampoline is an ordinary application: the callee's body runs in a "
              "frame created in that turn as a child of the applied closure's frame, never in a frame carried over from an "
@@ -337,6 +353,87 @@ def run(ctx):
     except ImportError:
         ctx.note("Engine C (grammar.sld analysis) not available in this revision: C02-derived-tail not run")
     return EXPLANATION, NOT_DECIDED
+
+
+def _library_heap_cycles(ctx):
+    """bundled library procedures every call of which leaves a frame behind (given that a frame binding a procedure closed over it
+    is never freed): procedures whose body — or the body of a procedure they call by name — starts with an internal procedure
+    definition; and the derived forms whose expansion calls one of them"""
+    try:
+        from scm import library, derived, listeval
+        from scm.reader import Sym, Dotted
+    except ImportError:
+        return
+    where = "src/interpreter/library/include/scheme/base.sld"
+    try:
+        w = listeval.World()
+    except Exception as e:
+        ctx.undecided("C02-heap-cycle", "library", "the bundled library could not be read (%s)" % e, where)
+        return
+
+    def is_proc_def(form):
+        if not (isinstance(form, list) and len(form) >= 3 and form[0] == Sym("define")):
+            return False
+        if isinstance(form[1], (list, Dotted)):
+            return True
+        v = form[2]
+        return isinstance(v, list) and bool(v) and v[0] == Sym("lambda")
+
+    def body_of(name):
+        v = w.genv.get(name)
+        if isinstance(v, tuple) and v and v[0] == "thunk":
+            try:
+                v = listeval.Eval(w, []).lookup(name, None)
+            except Exception:
+                return None
+        return list(v.body) if isinstance(v, listeval.Closure) else None
+
+    def operators(t, out):
+        if isinstance(t, list) and t:
+            if t[0] == Sym("quote"):
+                return
+            if isinstance(t[0], Sym):
+                out.add(t[0].name)
+            for x in t:
+                operators(x, out)
+
+    own, calls = {}, {}
+    for name in w.lib.def_order:
+        b = body_of(name)
+        if b is None:
+            continue
+        own[name] = [f[1][0].name if isinstance(f[1], list) else (f[1].items[0].name if isinstance(f[1], Dotted) else f[1].name) for f in b if is_proc_def(f)]
+        ops = set()
+        for f in b:
+            operators(f, ops)
+        calls[name] = {o for o in ops if o in w.lib.defs and o != name}
+    leaking = {n: ("its body defines the internal procedure(s) %s" % own[n]) for n in own if own[n]}
+    changed = True
+    while changed:
+        changed = False
+        for n in own:
+            if n not in leaking:
+                via = sorted(c for c in calls.get(n, ()) if c in leaking)
+                if via:
+                    leaking[n] = "it calls %s" % via[0]
+                    changed = True
+    exported = {i for i, _ in w.lib.exports}
+    mf = w.mf
+    users = {}
+    for kw, rules in getattr(mf, "macros", {}).items():
+        for r in rules:
+            ops = set()
+            operators(r.template, ops)
+            for n in ops:
+                if n in leaking:
+                    users.setdefault(n, set()).add(kw)
+    ctx.inst("C02-heap-cycle", "library", {"procedures": len(own), "with_internal_procedure_definitions": sorted(n for n in own if own[n])})
+    for n in sorted(leaking):
+        if n not in exported and n not in users:
+            continue
+        ctx.report("C02-heap-cycle", "library/" + n, "every call of the library procedure %s leaves a frame behind (%s; such a frame is "
+                   "never freed)%s" % (n, leaking[n], (": a loop through the derived form(s) %s, which expand into a call of it, grows the live "
+                                                      "heap with the iteration count" % sorted(users[n])) if n in users else ""), where)
 
 
 def registry_targets(fb):
